@@ -88,6 +88,15 @@ func (opp *operationPack) Write(def Definition, repo repository.Repo, parentComm
 		return "", err
 	}
 
+	// A tree pointing to an object that doesn't exist is a broken repository for git (fsck, push, gc ...):
+	// the files have to be stored before they are attached. Checked before anything is written.
+	extraTree := opp.makeExtraTree()
+	for _, entry := range extraTree {
+		if _, err := repo.ReadData(entry.Hash); err != nil {
+			return "", fmt.Errorf("attached file %s: %w", entry.Hash, err)
+		}
+	}
+
 	// For different reason, we store the clocks and format version directly in the git tree.
 	// Version has to be accessible before any attempt to decode to return early with a unique error.
 	// Clocks could possibly be stored in the git blob but it's nice to separate data and metadata, and
@@ -132,14 +141,7 @@ func (opp *operationPack) Write(def Definition, repo repository.Repo, parentComm
 			Name:       fmt.Sprintf(createClockEntryPrefix+"%d", opp.CreateTime),
 		})
 	}
-	if extraTree := opp.makeExtraTree(); len(extraTree) > 0 {
-		// A tree pointing to an object that doesn't exist is a broken repository for git (fsck, push, gc ...):
-		// the files have to be stored before they are attached.
-		for _, entry := range extraTree {
-			if _, err := repo.ReadData(entry.Hash); err != nil {
-				return "", fmt.Errorf("attached file %s: %w", entry.Hash, err)
-			}
-		}
+	if len(extraTree) > 0 {
 		extraTreeHash, err := repo.StoreTree(extraTree)
 		if err != nil {
 			return "", err
